@@ -418,6 +418,19 @@ def iter {α} : Nat → (α → R α) → α → R α
     let a' ← f a
     iter k f a'
 
+/-- is this builder the `UnknownVariant` placeholder (a union variant never seen while tracing)? -/
+def B.isPlaceholder : B → Bool
+  | .unknownVariant _ => true
+  | _ => false
+
+/-- index of the first child that is not a placeholder (`none`: all are placeholders) -/
+def firstReal? : BL → Option Nat
+  | .nil => none
+  | .cons b _ rest => if b.isPlaceholder then (firstReal? rest).map (· + 1) else some 0
+
+/-- `fields.iter().position(|b| !matches!(b, UnknownVariant(_))).unwrap_or(0)` -/
+def firstReal (fs : BL) : Nat := (firstReal? fs).getD 0
+
 mutual
 /-- `k` consecutive `serialize_default` calls.  The Rust code loops (`for _ in 0..n { elements.serialize_default() }`);
 the model pushes the `k` placeholders of each builder in one structural pass over the builder tree (own state
@@ -465,21 +478,44 @@ def pushDefaultK : B → Nat → R B
   | b@(.union p fs types offs cur), k => ctx b.ann (
     match fs with
     | .nil => if k = 0 then .ok b else fail "Could not find variant 0 in Union"
-    | .cons c m rest => do
-      let c' ← pushDefaultK c k
-      let c0 := cur.getD 0 0
-      pure (.union p (.cons c' m rest) (types ++ List.replicate k 0)
-        (offs ++ (List.range k).map (fun (i : Nat) => c0 + (i : Int))) (cur.set 0 (c0 + k))))
+    | .cons _ _ _ =>
+      -- repo fix 837fa53: the first variant that is not an `UnknownVariant` placeholder (variant 0 if all are);
+      -- `serialize_variant` converts the index to `i8`
+      let j := firstReal fs
+      if k ≠ 0 ∧ j > 127 then fail "out of range integral type conversion attempted"
+      else do
+        let fs' ← pushDefaultKAt fs j k
+        let cj := cur.getD j 0
+        pure (.union p fs' (types ++ List.replicate k (j : Int))
+          (offs ++ (List.range k).map (fun (i : Nat) => cj + (i : Int))) (cur.set j (cj + k))))
 def pushDefaultKAll : BL → Nat → R BL
   | .nil, _ => .ok .nil
   | .cons b m rest, k => do
     let b' ← pushDefaultK b k
     let r ← pushDefaultKAll rest k
     pure (.cons b' m r)
+/-- `k` consecutive `serialize_default` calls on child `j` (the other children are untouched) -/
+def pushDefaultKAt : BL → Nat → Nat → R BL
+  | .nil, _, _ => .ok .nil
+  | .cons b m rest, 0, k => do
+    let b' ← pushDefaultK b k
+    pure (.cons b' m rest)
+  | .cons b m rest, j + 1, k => do
+    let r ← pushDefaultKAt rest j k
+    pure (.cons b m r)
 end
 
 /-- `serialize_default` -/
 def pushDefault (b : B) : R B := pushDefaultK b 1
+
+/-- `ArrayBuilder::is_nullable` (moved here from Finish.lean: `DictionaryUtf8Builder::serialize_none` asks its key builder) -/
+def B.isNullable : B → Bool
+  | .null _ _ => true
+  | .unknownVariant _ => false
+  | .leaf _ _ v _ | .bytes _ _ v _ _ | .bytesView _ _ v _ _ | .fixedSizeBinary _ _ _ v _ _
+  | .list _ _ _ v _ _ | .fixedSizeList _ _ _ _ v _ _ | .map _ _ v _ _ _ | .struct _ _ v _ _ _ _ => v.isSome
+  | .dictionary _ idx _ _ => idx.isNullable
+  | .union _ _ _ _ _ => false
 
 /-- `serialize_none` (and `serialize_unit`, which forwards to it) -/
 def pushNone : B → R B
@@ -514,9 +550,13 @@ def pushNone : B → R B
       let v' ← setValidity v len false
       let fs' ← pushDefaultKAll fs 1
       pure (.struct p (len + 1) v' fs' cached next seen))
-  | b@(.dictionary p idx vals index) => ctx b.ann (do
-      let idx' ← ctx b.ann (pushNone idx)
-      pure (.dictionary p idx' vals index))
+  | b@(.dictionary p idx vals index) => ctx b.ann (
+      -- repo fix ca6f255: the dictionary builder itself refuses a null for a non-nullable field (before, the key
+      -- builder did, under `{path}.key` / its integer type)
+      if idx.isNullable = false then fail "Cannot push null for non-nullable array"
+      else do
+        let idx' ← ctx b.ann (pushNone idx)
+        pure (.dictionary p idx' vals index))
   | b@(.union _ _ _ _ _) => ctx b.ann (fail "serialize_unit/serialize_none is not supported")
 
 end SaModel.Build
